@@ -287,6 +287,16 @@ type world struct {
 	// whole-message loss on it is permitted
 	lossOK    map[[2]int]bool
 	unplanned int
+	watchdogs int // waits that ended by the watchdog: the case cannot vouch for completeness any more
+}
+
+// gaveUp records that a wait ended by the watchdog: the run becomes inconclusive and this world's completeness
+// check is skipped (what is outstanding may simply still be on its way).
+func (w *world) gaveUp(format string, a ...any) {
+	w.mu.Lock()
+	w.watchdogs++
+	w.mu.Unlock()
+	w.res.inconclusive(format, a...)
 }
 
 func newWorld(res *results, name, scenario string, mask uint64) *world {
@@ -1013,7 +1023,7 @@ func (w *world) evaluate(o evalOpts) {
 	w.res.count("messages_accepted_by_send", int64(nAccepted))
 	w.res.count("messages_refused_by_send", int64(nRefused))
 	w.res.count("messages_delivered_whole", int64(nDelivered))
-	if o.complete {
+	if o.complete && w.watchdogs == 0 {
 		for k, ms := range missing {
 			var budget int64
 			if nd := w.nodes[k[0]]; nd.p != nil {
